@@ -82,7 +82,9 @@ def canon(v):
         dims = sorted(v.dims)
         w = v.transpose(*dims)
         w = w.sortby([d for d in dims if d in w.coords and w[d].ndim == 1 and w.indexes.get(d) is not None and not hasattr(w.indexes[d], "levels")])
-        return dict(dims=dims, name=v.name, values=np.asarray(w.values))
+        # the labels along every indexed dimension are part of the answer (an answer at other labels is another answer)
+        labels = {d: [repr(tuple(e) if isinstance(e, tuple) else e) for e in w.indexes[d].tolist()] for d in dims if d in w.indexes}
+        return dict(dims=dims, name=v.name, values=np.asarray(w.values), labels=labels)
     return v
 
 
